@@ -116,7 +116,12 @@ func runHistory(t *testing.T, ops []rcOp, d time.Duration) (toks []string, resul
 				toks = append(toks, fmt.Sprintf("c:%d:%d", us(time.Now()), int64(op.cleanD/time.Microsecond)))
 				results = append(results, "-")
 			case 'p':
-				ct := stamps[op.p.ts]
+				var ct time.Time
+				if op.p.ts < len(stamps) {
+					ct = stamps[op.p.ts]
+				} else {
+					ct = t0.Add(time.Duration(op.p.ts) * time.Microsecond) // one of many distinct instants inside the window
+				}
 				r := c.IsReplay(rcSvc(op.p.svc), rcAuth(op.p.client, ct))
 				toks = append(toks, fmt.Sprintf("p:%d:%d:%d", op.p.client, us(ct), op.p.svc))
 				results = append(results, B(r))
@@ -253,6 +258,16 @@ func c02Sequential(t *testing.T, m *Model, v *Verdict, rng *RNG) {
 	// second and 999 ms after it was accepted must keep it, it is refused when presented again
 	for _, dt := range []time.Duration{500 * time.Millisecond, 999 * time.Millisecond, 999999 * time.Microsecond} {
 		c02Check(t, m, v, []rcOp{{kind: 'p', p: rcPres{0, 3, 0}}, {kind: 's', dt: dt}, {kind: 'c', cleanD: d}, {kind: 'p', p: rcPres{0, 3, 0}}}, d, "sub-second-window")
+	}
+	// directed: one client presents 300 different authenticators inside the window and then the first one again
+	// (what is remembered per client has no room limit that is smaller than what the window can hold)
+	{
+		ops := []rcOp{{kind: 'p', p: rcPres{0, 1000, 0}}}
+		for i := 1; i <= 300; i++ {
+			ops = append(ops, rcOp{kind: 'p', p: rcPres{0, 1000 + i*7, 0}})
+		}
+		ops = append(ops, rcOp{kind: 'p', p: rcPres{0, 1000, 0}}, rcOp{kind: 'c', cleanD: d}, rcOp{kind: 'p', p: rcPres{0, 1007, 0}})
+		c02Check(t, m, v, ops, d, "many-authenticators")
 	}
 	// directed: service A, then B, then A
 	c02Check(t, m, v, []rcOp{{kind: 'p', p: rcPres{0, 1, 0}}, {kind: 'p', p: rcPres{0, 1, 1}}, {kind: 'p', p: rcPres{0, 1, 0}}}, d, "two-services")
